@@ -1,6 +1,6 @@
-"""C05, oracle-only part: the must_if< Errors, Control > control (custom messages, raise_on_failure) and `error_message` members.
-The Lean model has no must_if control; this part runs generated grammars through the real control and judges the implementation's
-own trace: identity of the blamed rule (the first invocation that ends in an exception), the custom message / what() string
+"""C05: the must_if< Errors, Control > control (custom messages, raise_on_failure).  The control is in the Lean model
+(`Ctx.msgs`, `failureHook`; theorems C05_must_if, C08_must_if_never_fails) and compared trace by trace (profile `mi`); this
+oracle judges the implementation's own trace independently: identity of the blamed rule (the first invocation that ends in an exception), the custom message / what() string
 (checked inside the harness), the position interval, and that a rule with a message never fails locally."""
 from __future__ import annotations
 import random
@@ -13,6 +13,7 @@ from .gram import ActSpec, grammar_to_json
 
 def oracle_mustif(c: Case, tr: Trace) -> Optional[str]:
     mi: Dict[int, str] = c.g.mi_msgs
+    has_catch = any(nd.kind in ('tcrf', 'tcrn') for nd in c.g.nodes.values())
     stack = []        # [id, begin byte, max byte]
     first_exc = None  # (id, begin, max) of the first invocation that ended in an exception
     for l in tr.events:
@@ -32,6 +33,8 @@ def oracle_mustif(c: Case, tr: Trace) -> Optional[str]:
             pos = int(p[2]) if p[0] != 'ap' else int(p[5])
             stack[-1][2] = max(stack[-1][2], pos)
     r = tr.result.split()
+    if has_catch:
+        return None       # which exception is the first one to reach parse() is judged only where nothing can catch or nest it
     if r[1] != '2':
         if first_exc is not None:
             return "an invocation ended in an exception but parse() returned normally (no try_catch in this corpus)"
